@@ -38,6 +38,7 @@ var hopKinds = []func() net.IP{
 	func() net.IP { return net.IPv4(198, 51, 100, 8) }, // 16-byte (v4-mapped) form
 	func() net.IP { return net.ParseIP("2001:db8::9") },
 	func() net.IP { return net.ParseIP("::ffff:203.0.113.5") },
+	func() net.IP { return net.IP{10, 1, 2, 3} }, // private: blanked by the redaction step
 }
 
 var rttAlpha = []float64{0, 1e-9, 0.1, 1.5, 3, 1e6}
@@ -104,7 +105,7 @@ const tol = 1e-12
 func le(a, b float64) bool { return a <= b+tol*math.Max(1, math.Max(math.Abs(a), math.Abs(b))) }
 
 // checkDoc normalises the document and checks every relation of the statement; returns (key, detail).
-func checkDoc(r *result.Results, nRuns int, lens []int) (string, string) {
+func checkDoc(r *result.Results, nRuns int, lens []int) (key string, detail string) {
 	rtts := append([]float64{}, r.E2eProbe.RTTs...)
 	r.Normalize()
 	// ids
@@ -245,6 +246,32 @@ func checkDoc(r *result.Results, nRuns int, lens []int) (string, string) {
 			}
 		}
 	}
+	// the last post-processing step of a request with skip-private-hops: the relations still hold afterwards
+	defer func() {
+		if key != "" {
+			return
+		}
+		r.RemovePrivateHops()
+		for i, run := range r.Traceroute.Runs {
+			if len(run.Hops) != lens[i] {
+				key, detail = "after-redaction/hops/count-changed", ""
+				return
+			}
+			for k, h := range run.Hops {
+				if h.TTL != k+1 {
+					key, detail = "after-redaction/hop/ttl", fmt.Sprintf("entry %d has ttl %d", k, h.TTL)
+					return
+				}
+				if h.Reachable != (len(h.IPAddress) > 0) {
+					key, detail = "after-redaction/hop/reachable-iff-address", fmt.Sprintf("ttl %d address %v reachable %v", h.TTL, h.IPAddress, h.Reachable)
+					return
+				}
+			}
+		}
+		if _, err := json.Marshal(r); err != nil {
+			key, detail = "after-redaction/json/marshal", err.Error()
+		}
+	}()
 	// round trip
 	var back result.Results
 	if err := json.Unmarshal(b, &back); err != nil {
